@@ -769,7 +769,9 @@ class _Failsafe(object):
                 if not isinstance(idx, int) or not -len(seq) <= idx < len(seq):
                     raise AnalysisError('create_app: route entry %s cannot be read' % short(e0))
                 e0 = _deref(ca, seq[idx])
-            if isinstance(e0, ast.Tuple) and not any(isinstance(x, ast.Starred) for x in e0.elts):
+            if isinstance(e0, ast.BinOp) and isinstance(e0.op, ast.Add):
+                parts = _seq_elements(ca, e0, 'create_app route entry')      # ('/',) + page
+            elif isinstance(e0, ast.Tuple) and not any(isinstance(x, ast.Starred) for x in e0.elts):
                 parts = list(e0.elts)
             elif isinstance(e0, ast.Call) and call_tail(e0) == 'SubApplication' and len(e0.args) == 2 and not e0.keywords:
                 parts = list(e0.args)
@@ -1113,6 +1115,8 @@ def _risky_nodes(repo, fi, depth=0, seen=None):
         elif isinstance(n, ast.Call):
             if _safe_builtin_call(n):
                 continue
+            if call_tail(n) == 'suppress' and isinstance(fi.mod.parents.get(n), ast.withitem):
+                continue      # with suppress(Exception): -- the guard itself
             g = _module_callee(repo, fi, n)
             if g is not None and depth < 4 and g.key not in seen:
                 inner, _ = _risky_nodes(repo, g, depth + 1, seen)
@@ -1434,8 +1438,12 @@ class _Raised(Exception):
 
 
 class _FuncVal(object):
-    def __init__(self, fi, bound=None):
-        self.fi, self.bound = fi, bound
+    def __init__(self, fi, bound=None, node=None, closure=None):
+        self.fi, self.bound, self.node, self.closure = fi, bound, node, closure
+
+    @property
+    def qualname(self):
+        return self.fi.qualname if self.fi is not None else self.node.name
 
 
 class _ClassVal(object):
@@ -1472,7 +1480,7 @@ class _Property(object):
 _BUILTIN_VALUES = {'str': str, 'bytes': bytes, 'int': int, 'list': list, 'tuple': tuple, 'dict': dict, 'bool': bool, 'float': float,
                    'set': set, 'frozenset': frozenset, 'bytearray': bytearray, 'object': object, 'len': len, 'range': range,
                    'reversed': reversed, 'enumerate': enumerate, 'zip': zip, 'isinstance': isinstance, 'min': min, 'max': max,
-                   'sorted': sorted, 'any': any, 'all': all, 'sum': sum, 'abs': abs, 'repr': repr, 'getattr': getattr, 'hasattr': hasattr}
+                   'sorted': sorted, 'any': any, 'all': all, 'sum': sum, 'abs': abs, 'repr': repr, 'getattr': getattr, 'hasattr': hasattr, 'next': next, 'iter': iter}
 _EXC_NAMES = ('BaseException', 'Exception', 'ValueError', 'TypeError', 'IndexError', 'KeyError', 'AttributeError', 'LookupError',
               'UnicodeDecodeError', 'UnicodeError', 'RuntimeError', 'StopIteration', 'AssertionError', 'NotImplementedError')
 _PLAIN = (type(None), bool, int, float, str, bytes, list, tuple, dict, set, frozenset, range)
@@ -1489,6 +1497,8 @@ _MATCH_METHODS = {'groupdict', 'group', 'groups', 'start', 'end', 'span'}
 _RE_ATTRS = {'compile', 'match', 'search', 'fullmatch', 'split', 'sub', 'findall', 'escape', 'I', 'IGNORECASE', 'M', 'MULTILINE',
              'S', 'DOTALL', 'X', 'VERBOSE', 'U', 'UNICODE', 'A', 'ASCII'}
 _PATTERN_T, _MATCH_T = type(_re.compile('')), type(_re.match('', ''))
+_ITERATOR_TYPES = ('reversed', 'list_reverseiterator', 'enumerate', 'zip', 'dict_items', 'dict_keys', 'dict_values', 'list_iterator',
+                   'tuple_iterator', 'str_ascii_iterator', 'str_iterator', 'range_iterator', 'dict_keyiterator')
 
 
 def _plain(v, depth=0):
@@ -1559,14 +1569,18 @@ class _Eval(object):
     def call_function(self, fv, args, kwargs, depth):
         if depth > 8:
             raise _Unknown('call depth')
-        fi = fv.fi
+        class _F(object):
+            pass
+        fi = _F()
+        fi.node = fv.node if fv.node is not None else fv.fi.node
+        fi.qualname = fv.qualname
         a = fi.node.args
         if a.vararg or a.kwarg or a.posonlyargs:
             raise _Unknown('signature of %s' % fi.qualname)
         if any(not (isinstance(d, ast.Name) and d.id in ('classmethod', 'staticmethod', 'property')) for d in fi.node.decorator_list):
             raise _Unknown('decorated function %s' % fi.qualname)
-        if any(isinstance(n, (ast.Yield, ast.YieldFrom, ast.Await)) for n in ast.walk(fi.node)):
-            raise _Unknown('generator %s' % fi.qualname)
+        if any(isinstance(n, (ast.Yield, ast.YieldFrom, ast.Await, ast.Nonlocal, ast.Global)) for n in ast.walk(fi.node)):
+            raise _Unknown('generator / nonlocal in %s' % fi.qualname)
         names = [x.arg for x in a.args]
         args = list(args)
         if fv.bound is not None:
@@ -1574,6 +1588,7 @@ class _Eval(object):
         if len(args) > len(names):
             raise _Raised('TypeError', 'too many arguments for %s' % fi.qualname)
         env = dict(zip(names, args))
+        outer = dict(fv.closure) if fv.closure is not None else {}
         for k, v in kwargs.items():
             if k in env or k not in names + [x.arg for x in a.kwonlyargs]:
                 raise _Raised('TypeError', 'bad keyword %s for %s' % (k, fi.qualname))
@@ -1586,7 +1601,13 @@ class _Eval(object):
             if n not in env:
                 if n not in defaults:
                     raise _Raised('TypeError', 'missing argument %s for %s' % (n, fi.qualname))
-                env[n] = self.expr(defaults[n], {}, depth + 1)
+                env[n] = self.expr(defaults[n], outer, depth + 1)
+        if outer:
+            # a nested function reads the enclosing variables as they are when it is called; its own assignments stay its own
+            stored = set(n.id for n in ast.walk(fi.node) if isinstance(n, ast.Name) and isinstance(n.ctx, ast.Store))
+            for k, v in outer.items():
+                if k not in env and k not in stored:
+                    env[k] = v
         sig = self.block(fi.node.body, env, depth + 1)
         if sig is not None and sig[0] == 'return':
             return sig[1]
@@ -1682,6 +1703,11 @@ class _Eval(object):
             self.assign(st.target, v, env, depth)
             return None
         if isinstance(st, ast.Pass):
+            return None
+        if isinstance(st, ast.FunctionDef):
+            if st.decorator_list:
+                raise _Unknown('decorated nested function')
+            env[st.name] = _FuncVal(None, node=st, closure=env)
             return None
         if isinstance(st, ast.Return):
             return ('return', self.expr(st.value, env, depth) if st.value is not None else None)
@@ -1783,15 +1809,14 @@ class _Eval(object):
 
     # -- expressions -----------------------------------------------------------------------------------------
     def truth(self, v):
-        if isinstance(v, (_Instance, _FuncVal, _ClassVal, _ModVal, _Method, _ExcClass)):
+        if isinstance(v, (_Instance, _FuncVal, _ClassVal, _ModVal, _Method, _ExcClass)) or type(v).__name__ in _ITERATOR_TYPES:
             return True
         if not _plain(v) and not isinstance(v, _Raised):
             raise _Unknown('truth of %s' % type(v).__name__)
         return bool(v)
 
     def iterate(self, v):
-        if isinstance(v, (list, tuple, str, bytes, dict, set, frozenset, range)) or type(v).__name__ in (
-                'reversed', 'list_reverseiterator', 'enumerate', 'zip', 'dict_items', 'dict_keys', 'dict_values', 'list_iterator'):
+        if isinstance(v, (list, tuple, str, bytes, dict, set, frozenset, range)) or type(v).__name__ in _ITERATOR_TYPES:
             return v
         raise _Unknown('iteration over %s' % type(v).__name__)
 
@@ -1900,7 +1925,13 @@ class _Eval(object):
                 else:
                     raise _Unknown('f-string format')
             return ''.join(parts)
-        if isinstance(e, (ast.ListComp, ast.SetComp, ast.GeneratorExp, ast.DictComp)):
+        if isinstance(e, ast.GeneratorExp):
+            # evaluated eagerly (the subset has no side effects); an exception inside might never have been reached lazily
+            try:
+                return iter(self.comprehension(e, env, depth))
+            except _Raised as r:
+                raise _Unknown('exception %s inside a generator expression' % r.name)
+        if isinstance(e, (ast.ListComp, ast.SetComp, ast.DictComp)):
             return self.comprehension(e, env, depth)
         if isinstance(e, ast.Attribute):
             return self.attribute(e, env, depth)
@@ -2007,9 +2038,8 @@ class _Eval(object):
                 raise _Unknown('isinstance type')
             return isinstance(args[0], ts)
         if f in (len, range, reversed, enumerate, zip, min, max, sorted, any, all, sum, abs, repr, str, bytes, int, list, tuple, dict,
-                 bool, float, set, frozenset) or (getattr(f, '__module__', None) == 're' and getattr(f, '__name__', '') in _RE_ATTRS):
-            if not all(_plain(a) or type(a).__name__ in ('reversed', 'list_reverseiterator', 'enumerate', 'zip', 'dict_items', 'dict_keys', 'dict_values')
-                       for a in args) or not all(_plain(v) for v in kwargs.values()):
+                 bool, float, set, frozenset, next, iter) or (getattr(f, '__module__', None) == 're' and getattr(f, '__name__', '') in _RE_ATTRS):
+            if not all(_plain(a) or type(a).__name__ in _ITERATOR_TYPES for a in args) or not all(_plain(v) for v in kwargs.values()):
                 raise _Unknown('builtin on %s' % [type(a).__name__ for a in args])
             if f is range and args and any(isinstance(a, int) and abs(a) > 10 ** 6 for a in args):
                 raise _Unknown('large range')
